@@ -8,9 +8,9 @@ Theorem deadlocked_iff_D : forall g V, Deadlock.deadlocked g V = true <-> Deadlo
 Proof. exact Deadlock.deadlocked_iff_D. Qed.
 Print Assumptions deadlocked_iff_D.
 
-Theorem C18_sound : forall f0 tr fin stt, C18.acc f0 tr fin = Accept stt ->
+Theorem C18_sound : forall strict f0 tr fin stt, C18.acc strict f0 tr fin = Accept stt ->
   (forall pre f post, tr = pre ++ f :: post ->
-     C18.same_edges (C18.G f) (C18.W f) = true /\ Deadlock.deadlocked (C18.G f) (C18.V f) = C18.nx f /\
+     (strict = true -> C18.same_edges (C18.G f) (C18.W f) = true /\ Deadlock.deadlocked (C18.G f) (C18.V f) = C18.nx f) /\
      (C18.stopped_itself fin = true -> post = [] -> Deadlock.D (C18.W f) (C18.V f)) /\
      ((C18.stopped_itself fin = false \/ post <> []) -> ~ Deadlock.D (C18.W f) (C18.V f))) /\
   ~ Deadlock.D (C18.W f0) (C18.V f0) /\
